@@ -16,11 +16,12 @@ if [ ! -d "$wt" ]; then git -C /repo worktree add -q --detach "$wt" HEAD || exit
 # reset --hard, not checkout -- .: `git apply -3` stages what it applies, and a staged change survives a checkout
 ( cd "$wt" && git reset -q --hard && git clean -fdq && git checkout -q --detach "$(git -C /repo rev-parse HEAD)" && git reset -q --hard ) || exit 2
 [ -z "$(git -C "$wt" status --porcelain)" ] || { echo "scratch worktree is not clean" >&2; exit 2; }
-( cd "$wt" && { git apply "$patch" 2>/dev/null || git apply -3 "$patch" 2>/dev/null || git apply -C1 "$patch"; } ) || { echo "patch does not apply" >&2; exit 2; }
+# (a 3-way attempt that ends in conflicts leaves markers behind: reset before trying anything else)
+( cd "$wt" && { git apply "$patch" 2>/dev/null || git apply -3 "$patch" 2>/dev/null || { git reset -q --hard; git apply -C1 "$patch" 2>/dev/null; } || git apply --ignore-whitespace "$patch"; } ) || { echo "patch does not apply" >&2; exit 2; }
 mkdir -p "$vs"
 rsync -a --exclude 'target*' --exclude '.git' --exclude 'replays/*' --exclude 'evidence/*' /verif/ "$vs"/
 sed -i "s#path = \"/repo\"#path = \"$wt\"#" "$vs/harness/Cargo.toml"
-sed -i "s#cd /repo && cargo build --release#cd $wt \&\& cargo build --release#" "$vs/check"
+sed -i "s#cd /repo && cargo build#cd $wt \&\& cargo build#" "$vs/check"
 mkdir -p "$vs/evidence"
 cd "$vs"
 for p in "$@"; do
